@@ -272,55 +272,59 @@ func sortCase(c *vlib.Ctx, r *vlib.Rand, prim, child *column, asc, childAsc bool
 		return res, idx
 	}
 
-	violationsBefore := c.Violations()
+	failed := false // any finding of this case: the independence epilogue is skipped then
+	fail := func(key, what string, d interface{}) {
+		failed = true
+		c.Fail(key, what, d)
+	}
 
 	// Sorting(asc)
 	var perm []int
 	if p := vlib.Catch(func() { perm = prim.l.Sorting(asc) }); p != nil {
-		c.Fail(prim.name+".Sorting:panic", fmt.Sprintf("Sorting(%v) panicked: %v", asc, p), detail(nil))
+		fail(prim.name+".Sorting:panic", fmt.Sprintf("Sorting(%v) panicked: %v", asc, p), detail(nil))
 		return
 	}
 	c.Count("sorting_calls", 1)
 	var st orderStats
 	if msg := checkPermutation(perm, n); msg != "" {
-		c.Fail(prim.name+".Sorting:not-permutation", msg, detail(perm))
+		fail(prim.name+".Sorting:not-permutation", msg, detail(perm))
 	} else if kd, _, msg := checkOrder(perm, prim, asc, nil, false, &st); kd != "" {
-		c.Fail(prim.name+".Sorting:"+kd, msg, detail(perm))
+		fail(prim.name+".Sorting:"+kd, msg, detail(perm))
 	} else if msg := prim.checkFiltered(filtered(prim, perm, "Filtering(Sorting result) of the primary")); msg != "" {
-		c.Fail(prim.name+".Filtering:filtering", "Filtering(Sorting result): "+msg, detail(perm))
+		fail(prim.name+".Filtering:filtering", "Filtering(Sorting result): "+msg, detail(perm))
 	}
 
 	// SortingAnyList(asc, child, childAsc)
 	var perm2 []int
 	if p := vlib.Catch(func() { perm2 = prim.l.SortingAnyList(asc, child.l, childAsc) }); p != nil {
-		c.Fail(prim.name+".SortingAnyList:panic", fmt.Sprintf("SortingAnyList(%v, %s, %v) panicked: %v", asc, child.name, childAsc, p), detail(nil))
+		fail(prim.name+".SortingAnyList:panic", fmt.Sprintf("SortingAnyList(%v, %s, %v) panicked: %v", asc, child.name, childAsc, p), detail(nil))
 		return
 	}
 	c.Count("sorting_anylist_calls", 1)
 	c.SetAdd("sort_combos", fmt.Sprintf("%s:%s/%s", combo, dirName(asc)[:3], dirName(childAsc)[:3]))
 	var st2 orderStats
 	if msg := checkPermutation(perm2, n); msg != "" {
-		c.Fail(prim.name+".SortingAnyList:not-permutation", msg, detail(perm2))
+		fail(prim.name+".SortingAnyList:not-permutation", msg, detail(perm2))
 	} else {
 		kd, in53, msg := checkOrder(perm2, prim, asc, child, childAsc, &st2)
 		switch {
 		case kd == "child-order" && in53:
-			c.Fail("SortingAnyList:child-order/"+combo+":beyond-2^53", msg, detail(perm2))
+			fail("SortingAnyList:child-order/"+combo+":beyond-2^53", msg, detail(perm2))
 		case kd != "":
-			c.Fail(prim.name+".SortingAnyList:"+kd, msg, detail(perm2))
+			fail(prim.name+".SortingAnyList:"+kd, msg, detail(perm2))
 		}
 		c.Count("adjacent_primary_ties", int64(st2.primTies))
 		c.Count("adjacent_ties_decided_by_child", int64(st2.childDecided))
 		// the child column filtered by the same permutation (what the pack does with every column)
 		if msg := child.checkFiltered(filtered(child, perm2, "Filtering(SortingAnyList result) of the child")); msg != "" {
-			c.Fail(child.name+".Filtering:filtering", "Filtering(SortingAnyList result) of the child: "+msg, detail(perm2))
+			fail(child.name+".Filtering:filtering", "Filtering(SortingAnyList result) of the child: "+msg, detail(perm2))
 		}
 	}
 	if msg := prim.unchanged(); msg != "" {
-		c.Fail(prim.name+".Sorting:wrong-value", "sorting modified the list: "+msg, detail(perm2))
+		fail(prim.name+".Sorting:wrong-value", "sorting modified the list: "+msg, detail(perm2))
 	}
 	if msg := child.unchanged(); msg != "" {
-		c.Fail(child.name+".Sorting:wrong-value", "sorting modified the child list: "+msg, detail(perm2))
+		fail(child.name+".Sorting:wrong-value", "sorting modified the child list: "+msg, detail(perm2))
 	}
 
 	// Filtering with arbitrary index lists: duplicates, any order, empty, nil, longer than n
@@ -342,11 +346,11 @@ func sortCase(c *vlib.Ctx, r *vlib.Rand, prim, child *column, asc, childAsc bool
 		if msg := prim.checkFiltered(filtered(prim, idx, "Filtering(random index list) of the primary")); msg != "" {
 			d := detail(nil)
 			d["index_list"] = clipInts(idx)
-			c.Fail(prim.name+".Filtering:filtering", msg, d)
+			fail(prim.name+".Filtering:filtering", msg, d)
 		}
 		c.Count("filtering_calls", 1)
 		if msg := prim.unchanged(); msg != "" {
-			c.Fail(prim.name+".Filtering:wrong-value", "Filtering modified the source list: "+msg, detail(nil))
+			fail(prim.name+".Filtering:wrong-value", "Filtering modified the source list: "+msg, detail(nil))
 		}
 	}
 	// an index list that selects a slot outside [0,size) must be reported
@@ -375,17 +379,17 @@ func sortCase(c *vlib.Ctx, r *vlib.Rand, prim, child *column, asc, childAsc bool
 			if res != nil {
 				sz = res.Size()
 			}
-			c.Fail(prim.name+".Filtering:"+kd, fmt.Sprintf("Filtering(%v) on a list of size %d (backing length %d) did not report the index; it returned %d elements", idx, n, tl, sz), d)
+			fail(prim.name+".Filtering:"+kd, fmt.Sprintf("Filtering(%v) on a list of size %d (backing length %d) did not report the index; it returned %d elements", idx, n, tl, sz), d)
 		}
 	}
 	// independence of sources, derived lists and index slices (this changes the lists, so it
 	// is the last thing done with them; the models prim/child hold are not touched)
 	permShown, perm2Shown := append([]int(nil), perm...), append([]int(nil), perm2...)
-	if c.Violations() == violationsBefore {
+	if !failed {
 		aliased := func(col *column, step, msg string) {
 			d := detail(nil)
 			d["step"] = step
-			c.Fail(col.name+".Filtering:aliased", step+": "+msg, d)
+			fail(col.name+".Filtering:aliased", step+": "+msg, d)
 		}
 		stillOK := func(step string, from int) bool {
 			if msg := prim.unchanged(); msg != "" {
